@@ -19,7 +19,8 @@ REPO = os.environ.get("VERIF_REPO", "/repo")
 BUILD = os.path.join(ROOT, "build")
 SPEC = os.path.join(ROOT, "spec")
 HARNESS = os.path.join(ROOT, "harness")
-EVID = os.path.join(ROOT, "evidence")
+# evidence describes runs against /repo itself; a run against a scratch tree (bin/seedtest) writes elsewhere
+EVID = os.path.join(ROOT, "evidence") if os.path.realpath(REPO) == "/repo" else os.path.join(ROOT, "build", "scratch-evidence")
 REPLAY = os.path.join(EVID, "replay")
 GUARD = "GOOGLE_CCTZ_VERIF"
 NCPU = os.cpu_count() or 4
@@ -204,7 +205,7 @@ class TlcResult:
 
 def tlc(module, cfg, env=None, workers=1, timeout=1800, heap="4g", extra=(), deque=False, tag=None):
     """Run TLC on spec/<module>.tla with config file cfg (absolute or relative to spec/)."""
-    tag = tag or ("%s-%d-%d" % (module, os.getpid(), int(time.time() * 1000) % 100000000))
+    tag = "%s.%d" % (tag, os.getpid()) if tag else ("%s-%d-%d" % (module, os.getpid(), int(time.time() * 1000) % 100000000))
     meta = os.path.join(BUILD, "tlc", tag)
     shutil.rmtree(meta, ignore_errors=True)
     os.makedirs(meta, exist_ok=True)
@@ -231,9 +232,24 @@ def write_cfg(path, text):
     return path
 
 
+def trim_incomplete(path):
+    """A driver that died (its exit status is reported by the caller) may leave a half-written last line:
+    cut it off so that the events before it are still judged."""
+    try:
+        with open(path, "rb+") as f:
+            data = f.read()
+            if data and not data.endswith(b"\n"):
+                f.seek(0)
+                f.truncate(data.rfind(b"\n") + 1)
+    except OSError:
+        pass
+
+
 def validate_shards(module, cfg, shards, env_key="TRACE", jobs=None, timeout=1800, heap="3g", env=None):
     """Validate NDJSON shards in parallel JVMs. Returns list of (shard, TlcResult)."""
     jobs = jobs or max(1, min(len(shards), NCPU - 2))
+    for p in shards:
+        trim_incomplete(p)
 
     def one(p):
         ev = dict(env or {})
